@@ -525,12 +525,20 @@ func main() {
 		{"ev new i16", "ev event 32767", "ev evict 32767"},
 		{"ev new slot32", "ev event 4096", "ev event 4097", "ev event 5000", "ev evict 4096", "ev event 0", "ev event 4096", "ev evict 8193", "ev event 4097", "ev event 8193",
 			"ev event 73730", "ev evict 73729", "ev event 73729", "ev evict 73730", "ev event 1122306", "ev event 1122307", "ev evict 1122306", "ev event 1122306", "ev event 73731"},
-		{"ev new u64", "ev event 18446744073709551615", "ev event 1048576", "ev evict 1048576", "ev event 1048576", "ev event 18446744073709551615", "ev evict 1048577"},
+		{"ev new u64", "ev event 9223372036854775807", "ev event 1048576", "ev evict 1048576", "ev event 1048576", "ev event 9223372036854775807", "ev evict 1048577"},
 		{"ev new f64", "ev event 4097", "ev evict 4096", "ev event 4096", "ev evict 4097", "ev event 9007199254740992"},
 		{"ev new f32", "ev event 16777216", "ev event 70000", "ev evict 65536", "ev evict 70000"},
 		// DerivedVariable: inputs that hold values already, initial value, Unsubscribe twice, DeriveValueFrom and its teardown
 		{"dv new lin 7 1,0,4096", "dv set 1 5", "dv derive", "dv set 2 -65537", "dv set 0 1", "dv unsub", "dv set 1 9", "dv unsub", "dv teardown", "dv set 0 3"},
 		{"dv new firstnz -3 0", "dv derive", "dv set 0 0", "dv set 0 1099511627776", "dv teardown", "dv set 0 2"},
+		// slots below 0 registered before the first eviction, and float slots between two integers (f32q / f64q count
+		// quarters: 6 = 1.5, 8 = 2.0): the probing loop of the unrepaired evict never reached them
+		{"ev new i8", "ev event -3", "ev event 2", "ev evict -1", "ev event -3", "ev evict -1", "ev evict 5", "ev event -128"},
+		{"ev new int", "ev event -9223372036854775808", "ev event -9223372036854775806", "ev evict -9223372036854775807", "ev event -9223372036854775808", "ev evict -9223372036854775806"},
+		{"ev new i16", "ev evict -32768", "ev event -32767", "ev event -32768", "ev evict -32767", "ev event 32767", "ev evict 32767"},
+		{"ev new f64q", "ev event 6", "ev evict 8", "ev event 6", "ev event 9", "ev event 10", "ev evict 9", "ev evict 12"},
+		{"ev new f32q", "ev evict 0", "ev event 6", "ev event 9", "ev event -2", "ev evict 8", "ev evict 12", "ev event -3"},
+		{"ev new f64", "ev event -3", "ev evict -2", "ev event -3", "ev evict 4"},
 		// concurrent EvictionEvent callers per fresh slot must share one event (GetOrCreate must re-check under its lock)
 		{"stress evictsame 4000 8 1"},
 	}
